@@ -18,6 +18,9 @@ def obligations(tier):
     for did in QUICK:
         obs.append(ob("C02", "e2c." + did, "vt.harness.C02:lifecycle",
                       {"did": did, "steps": 5, "control": "either", "bits": True}, timeout=600))
+    for did in ("D02", "D12"):
+        o = ob("C02", "e2c.early." + did, "vt.harness.C02:lifecycle", {"did": did, "steps": 5, "control": "pause", "early_resume": True}, timeout=900)
+        obs.append(o)
     obs.append(ob("C02", "twin.D04", "vt.harness.C02:lifecycle", {"did": "D04", "steps": 5, "twin": True}, timeout=60))
     obs.append(A5.obligation("C02", tier))
     return obs
